@@ -38,7 +38,7 @@ func checkC17(c *Ctx) error {
 	if err != nil {
 		return err
 	}
-	n := c.Pick(450, 16000)
+	n := c.Pick(450, 8000)
 	var units []*probe.Unit
 	for i := 0; i < n; i++ {
 		r := rand.New(rand.NewSource(c.Seed*7907 + int64(i)))
